@@ -78,7 +78,7 @@ func (s *IncSolver) declare(ts []*Term) string {
 	for _, f := range forms {
 		if s.loaded != nil && !s.loaded[f.name] {
 			s.loaded[f.name] = true
-			b.WriteString(f.text)
+			b.WriteString(formText(f))
 			b.WriteString("\n")
 		}
 	}
@@ -104,7 +104,15 @@ func (s *IncSolver) declare(ts []*Term) string {
 
 // Feasible reports whether pc ∧ extra may be satisfiable (unknown counts as feasible).
 func (s *IncSolver) Feasible(pc []*Term, extra *Term) bool {
-	all := append(append([]*Term{}, pc...), extra)
+	// quantified facts are left out: the check only prunes paths, and fewer hypotheses
+	// can only make a path look feasible
+	var all []*Term
+	for _, t := range pc {
+		if !hasQuant(t) {
+			all = append(all, t)
+		}
+	}
+	all = append(all, extra)
 	all = append(imageFacts(all), all...)
 	var kb strings.Builder
 	for _, t := range all {
@@ -271,6 +279,36 @@ func obligationChunks(ob *Obligation, prelude string) []*Script {
 	return out
 }
 
+func lightOnly(pc []*Term) []*Term {
+	var q []*Term
+	for _, t := range pc {
+		if hasForall(t) {
+			continue
+		}
+		q = append(q, t)
+	}
+	return q
+}
+
+var forallCache = map[*Term]bool{}
+
+func hasForall(t *Term) bool {
+	if v, ok := forallCache[t]; ok {
+		return v
+	}
+	r := t.Op == "forall" || t.Op == "exists"
+	if !r {
+		for _, a := range t.Args {
+			if hasForall(a) {
+				r = true
+				break
+			}
+		}
+	}
+	forallCache[t] = r
+	return r
+}
+
 func hasQuant(t *Term) bool {
 	if t.Op == "forall" || t.Op == "exists" || t.Op == "hext" {
 		return true
@@ -296,7 +334,11 @@ func obligationScript(ob *Obligation, prelude string) *Script {
 	}
 	var ds []*Term
 	for _, c := range ob.Cases {
-		ds = append(ds, And(append(append([]*Term{}, c.pc...), Not(c.goal))...))
+		pc := c.pc
+		if !c.derived {
+			pc = c.full()
+		}
+		ds = append(ds, And(append(append([]*Term{}, pc...), Not(c.goal))...))
 	}
 	sc.Asserts = []*Term{Or(ds...)}
 	return sc
@@ -340,54 +382,61 @@ func (d *Discharger) prepare(ob *Obligation) {
 			sub := &Obligation{Name: ob.Name}
 			okHint := true
 			for _, c := range cases[i] {
-				pc, ok := hintedPC(ob.Name, c.pc)
+				pc, ok := hintedPC(ob.Name, c.full())
 				if !ok {
 					okHint = false
 					break
 				}
-				sub.Cases = append(sub.Cases, obCase{pc: pc, goal: c.goal})
+				sub.Cases = append(sub.Cases, obCase{pc: pc, goal: c.goal, derived: true})
 			}
 			if okHint {
 				ob.variants[k] = append(ob.variants[k], obligationScript(sub, d.prelude).Render("", false))
 			}
 		}
+		// cheaper hypothesis sets: the facts gathered since the last loop cut (this iteration /
+		// the code after the loop) or all of them, each with its derived facts (instances,
+		// unfoldings), quantified facts dropped, then filtered by relevance to the goal
 		type vmode struct {
-			depth int
-			light bool
+			sinceCut bool
+			depth    int // > 0: relevance depth; -1: only hypotheses whose spec functions all occur in the goal
 		}
-		modes := []vmode{{2, true}, {4, true}, {6, true}, {4, false}, {0, true}}
+		modes := []vmode{{true, -1}, {false, -1}, {true, 3}, {true, 0}, {false, 4}, {false, 0}}
 		if e := os.Getenv("GOVC_DEPTHS"); e != "" {
 			modes = nil
 			for _, x := range strings.Split(e, ",") {
 				n, _ := strconv.Atoi(x)
-				modes = append(modes, vmode{n, true})
+				modes = append(modes, vmode{false, n})
 			}
 		}
+		seenText := map[string]bool{}
 		for _, mode := range modes {
 			sub := &Obligation{Name: ob.Name}
-			changed := false
+			applicable := true
 			for _, c := range cases[i] {
-				pc := c.pc
+				raw := c.pc
+				if mode.sinceCut {
+					if c.cut <= 0 || c.cut >= len(c.pc) {
+						applicable = false
+						break
+					}
+					raw = c.pc[c.cut:]
+				}
+				pc := lightOnly(withDerived(raw, c.cands, c.goal))
 				if mode.depth > 0 {
 					pc = relevantPC(pc, c.goal, mode.depth)
 				}
-				if mode.light {
-					var q []*Term
-					for _, t := range pc {
-						if t.Op == "forall" || (t.Op == "=>" && t.Args[1].Op == "forall") {
-							continue
-						}
-						q = append(q, t)
-					}
-					pc = q
+				if mode.depth == -1 {
+					pc = sameFuncsPC(pc, c.goal)
 				}
-				if len(pc) != len(c.pc) {
-					changed = true
-				}
-				sub.Cases = append(sub.Cases, obCase{pc: pc, goal: c.goal})
+				sub.Cases = append(sub.Cases, obCase{pc: pc, goal: c.goal, derived: true})
 			}
-			if changed {
-				ob.variants[k] = append(ob.variants[k], obligationScript(sub, d.prelude).Render("", false))
+			if !applicable {
+				continue
+			}
+			text := obligationScript(sub, d.prelude).Render("", false)
+			if !seenText[text] {
+				seenText[text] = true
+				ob.variants[k] = append(ob.variants[k], text)
 			}
 		}
 		k++
@@ -465,6 +514,15 @@ func relevantPC(pc []*Term, goal *Term, depth int) []*Term {
 			out = append(out, t)
 		}
 	}
+	if os.Getenv("GOVC_DEBUG") != "" {
+		hubs := 0
+		for _, n := range occ {
+			if n > limit {
+				hubs++
+			}
+		}
+		fmt.Fprintf(os.Stderr, "relevantPC depth=%d: %d of %d hypotheses kept; %d goal terms, limit %d, %d hub terms\n", depth, len(out), len(pc), len(sigTerms(goal)), limit, hubs)
+	}
 	return out
 }
 
@@ -500,12 +558,60 @@ func sigTerms(t *Term) map[*Term]bool {
 	return m
 }
 
+// sameFuncsPC keeps the hypotheses all of whose specification-function symbols occur in the goal.
+func sameFuncsPC(pc []*Term, goal *Term) []*Term {
+	gf := appSyms(goal)
+	var out []*Term
+	for _, t := range pc {
+		ok := true
+		for f := range appSyms(t) {
+			if !gf[f] {
+				ok = false
+				break
+			}
+		}
+		if ok {
+			out = append(out, t)
+		}
+	}
+	return out
+}
+
+var appSymCache = map[*Term]map[string]bool{}
+
+func appSyms(t *Term) map[string]bool {
+	if m, ok := appSymCache[t]; ok {
+		return m
+	}
+	m := map[string]bool{}
+	seen := map[*Term]bool{}
+	var rec func(x *Term)
+	rec = func(x *Term) {
+		if seen[x] {
+			return
+		}
+		seen[x] = true
+		if x.Op == "app" && x.Str != "go_div" && x.Str != "go_rem" {
+			m[x.Str] = true
+		}
+		for _, a := range x.Args {
+			rec(a)
+		}
+	}
+	rec(t)
+	appSymCache[t] = m
+	return m
+}
+
 // infraSymbol: allocation water marks and whole heaps occur almost everywhere and never select a hypothesis.
 func infraSymbol(s string) bool {
 	return strings.HasPrefix(s, "lw!") || (strings.HasPrefix(s, "H$") && strings.HasSuffix(s, "@0"))
 }
 
 var hintMu sync.Mutex
+
+// termMu serialises term construction done from discharge goroutines (learning only).
+var termMu sync.Mutex
 
 var symCache = map[*Term]map[string]bool{}
 
@@ -639,14 +745,12 @@ func (d *Discharger) discharge(ob *Obligation) {
 			go func(ci int) {
 				defer lw.Done()
 				c := cases[ci][0]
-				var light []*Term
-				for _, t := range c.pc {
-					if t.Op == "forall" || (t.Op == "=>" && t.Args[1].Op == "forall") {
-						continue
-					}
-					light = append(light, t)
-				}
-				if d.learnCore(ob, obCase{pc: light, goal: c.goal}, 240) || d.learnCore(ob, c, 900) {
+				termMu.Lock()
+				fullPC := c.full()
+				lightPC := lightOnly(fullPC)
+				termMu.Unlock()
+				_ = lightPC
+				if d.learnCore(ob, obCase{pc: lightPC, goal: c.goal, derived: true}, 240) || d.learnCore(ob, obCase{pc: fullPC, goal: c.goal, derived: true}, 900) {
 					crs[ci].answer = "unsat"
 					if crs[ci].backend == "" {
 						crs[ci].backend = backends[0].name
@@ -788,7 +892,7 @@ func (d *Discharger) solveOne(ob *Obligation, ci int, text string) (cr chunkResT
 			lf := filepath.Join(d.dir, fmt.Sprintf("%s.v%d.smt2", base, vi))
 			os.WriteFile(lf, []byte(vt), 0o644)
 			d.sem <- struct{}{}
-			a0, _ := runBackend(context.Background(), backends[0], lf, 3)
+			a0, _ := runBackend(context.Background(), backends[0], lf, 6)
 			<-d.sem
 			if a0 != "unsat" {
 				continue
